@@ -17,3 +17,4 @@ def run(ctx, rep):
     more.rule_sing_init(mod, rep)
     more.rule_kernel_columns(mod, rep)
     more.rule_release_after(mod, rep)
+    more.rule_pivot_found(mod, rep)
